@@ -82,28 +82,7 @@ def run(ctx):
 
     # ---------------- R6 an operator's result depends on the operand values, not on how the operands were written
     ctx.rule("C02.R6", "the operator evaluator looks at its operands' values only: it never matches on the syntactic form of an operand expression (a literal exponent taking a different code path than a variable holding the same number makes `x ^ 3` differ from `n = 3; x ^ n`)", floor=1)
-    n_ops = 0
-    for fname in sorted(core.hir):
-        if not fname.startswith(CORE + "expressions::evaluate_binary_op") or core.hir[fname].get("body") is None:
-            continue
-        hf = core.hir[fname]
-        ast_params = {bn for p_, t_ in zip(hf.get("params", []), hf.get("inputs", [])) if "ast::Spanned<blots_core::ast::Expr>" in t_ for bn in H.pat_binds(p_)}
-        looks = []
-        for x in H.walk(hf["body"]):
-            pat, scr = None, None
-            if H.kind(x) == "LetExpr":
-                pat, scr = x["pat"], x["init"]
-            elif H.kind(x) == "Match":
-                scr = x["scrut"]
-                pat = {"k": "Or", "pats": [a_["pat"] for a_ in x["arms"]]}
-            if pat is None:
-                continue
-            if any("ast::Expr::" in v_ for v_ in H.pat_variants(pat)) and any(H.kind(y) == "Field" and y["name"] == "node" and H.path_local(y["e"]) in ast_params for y in H.walk(scr)):
-                looks.append(H.loc(x))
-        n_ops += 1
-        ctx.inst("C02.R6", "%s#operand-syntax" % fname.replace(CORE, ""), not looks, "operand expressions of type SpannedExpr: %s; places where the result depends on an operand's syntactic form: %s" % (sorted(ast_params), looks or "none"), H.loc(hf["body"]))
-    if n_ops == 0:
-        ctx.inst("C02.R6", "operator-evaluator", None, "no evaluate_binary_op* function found", None)
+    operand_syntax_rule(ctx, "C02.R6", core)
 
     # ---------------- R7 the --output file holds this run's result and nothing of an earlier one
     from rules import c06 as c06_
@@ -168,21 +147,7 @@ def run(ctx):
                             ok = par is not None and ((m_, par) in ALLOWED_STATICS)
                         ctx.inst("C02.R1", "%s@static:%s" % (n.replace(CORE, ""), m_.replace(CORE, "")), ok,
                                  "static %s read in %s: %s" % (m_, n, ALLOWED_STATICS.get((m_, n)) or ALLOWED_STATICS.get((m_, None)) or why_st or "not an allowed static"), "%s:%d" % (s["sp"][0], s["sp"][1]))
-    # process-wide switches of the libraries underneath: whoever flips one changes every later evaluation in the process (a parser call
-    # limit set while loading one input caps every later parse) - nothing in the three crates may call them
-    GLOBAL_SETTERS = re.compile(r"^(pest::(parser_state::)?set_call_limit|pest::(parser_state::)?set_error_detail|std::env::(set_var|remove_var|set_current_dir)|std::panic::(set_hook|take_hook))")
-    n_gs = 0
-    for cr_ in crates:
-        for n_, f_ in sorted(cr_.mir.items()):
-            if "::tests::" in n_:
-                continue
-            fn_ = M.Fn(f_, n_)
-            for b_ in fn_.call_blocks():
-                c_ = fn_.callee(b_) or ""
-                if GLOBAL_SETTERS.match(c_):
-                    n_gs += 1
-                    ctx.inst("C02.R1", "%s->%s" % (n_.replace(CORE, ""), c_), False, "%s changes process-wide state: evaluations after this call behave differently from evaluations before it" % c_, fn_.loc(b_))
-    ctx.inst("C02.R1", "process-wide-switches#none", n_gs == 0, "calls of process-wide setters (pest call limit / error detail, environment, panic hook) in the three crates: %d" % n_gs, None)
+    process_wide_setters(ctx, "C02.R1", crates)
     # the seeded generator takes its seed from the argument
     for mname, (mfn, _r) in sorted(BA.members.items()):
         for b in mfn.calls_to("fastrand::Rng::with_seed"):
@@ -269,6 +234,53 @@ def run(ctx):
     # positive control: the rule must see the known insensitive site in validate_portable_value
     seen_ctrl = any(i["rule"] == "C02.R3" and "validate_portable_value" in i["key"] for i in ctx.instances)
     ctx.inst("C02.R3", "control#validate_portable_value", seen_ctrl, "the scope iteration in validate_portable_value (inserting into a HashSet) was enumerated: %s" % seen_ctrl, None)
+
+
+def operand_syntax_rule(ctx, rid, core):
+    """the operator evaluator never looks at the syntactic form of an operand (shared with C05: a captured value is emitted as a
+    literal, so a literal-only code path changes what the reloaded function does)"""
+    n_ops = 0
+    for fname in sorted(core.hir):
+        if not fname.startswith(CORE + "expressions::evaluate_binary_op") or core.hir[fname].get("body") is None:
+            continue
+        hf = core.hir[fname]
+        ast_params = {bn for p_, t_ in zip(hf.get("params", []), hf.get("inputs", [])) if "ast::Spanned<blots_core::ast::Expr>" in t_ for bn in H.pat_binds(p_)}
+        looks = []
+        for x in H.walk(hf["body"]):
+            pat, scr = None, None
+            if H.kind(x) == "LetExpr":
+                pat, scr = x["pat"], x["init"]
+            elif H.kind(x) == "Match":
+                scr = x["scrut"]
+                pat = {"k": "Or", "pats": [a_["pat"] for a_ in x["arms"]]}
+            if pat is None:
+                continue
+            if any("ast::Expr::" in v_ for v_ in H.pat_variants(pat)) and any(H.kind(y) == "Field" and y["name"] == "node" and H.path_local(y["e"]) in ast_params for y in H.walk(scr)):
+                looks.append(H.loc(x))
+        n_ops += 1
+        ctx.inst(rid, "%s#operand-syntax" % fname.replace(CORE, ""), not looks, "operand expressions of type SpannedExpr: %s; places where the result depends on an operand's syntactic form: %s" % (sorted(ast_params), looks or "none"), H.loc(hf["body"]))
+    if n_ops == 0:
+        ctx.inst(rid, "operator-evaluator", None, "no evaluate_binary_op* function found", None)
+
+
+
+def process_wide_setters(ctx, rid, crates):
+    """no call of a process-wide setter of the libraries underneath (shared with C05: a parser call limit refuses large emitted sources)"""
+    # process-wide switches of the libraries underneath: whoever flips one changes every later evaluation in the process (a parser call
+    # limit set while loading one input caps every later parse) - nothing in the three crates may call them
+    GLOBAL_SETTERS = re.compile(r"^(pest::(parser_state::)?set_call_limit|pest::(parser_state::)?set_error_detail|std::env::(set_var|remove_var|set_current_dir)|std::panic::(set_hook|take_hook))")
+    n_gs = 0
+    for cr_ in crates:
+        for n_, f_ in sorted(cr_.mir.items()):
+            if "::tests::" in n_:
+                continue
+            fn_ = M.Fn(f_, n_)
+            for b_ in fn_.call_blocks():
+                c_ = fn_.callee(b_) or ""
+                if GLOBAL_SETTERS.match(c_):
+                    n_gs += 1
+                    ctx.inst(rid, "%s->%s" % (n_.replace(CORE, ""), c_), False, "%s changes process-wide state: evaluations after this call behave differently from evaluations before it" % c_, fn_.loc(b_))
+    ctx.inst(rid, "process-wide-switches#none", n_gs == 0, "calls of process-wide setters (pest call limit / error detail, environment, panic hook) in the three crates: %d" % n_gs, None)
 
 
 def run_identity(ctx, cg, local, crates, rid="C02.R4", doc=None):
